@@ -481,8 +481,50 @@ func decEqStr(d decstr, other value) *Term {
 		}
 		return mkEq(d.x, mkConst(64, uint64(n)))
 	}
-	theEx.unsupported("comparison of decimal text with symbolic string")
-	return tFalse
+	cells, ok := strCells(other)
+	if !ok {
+		theEx.unsupported("comparison of decimal text with opaque text")
+	}
+	return decEqCells(d.x, cells)
+}
+
+// decEqCells: the byte cells spell the canonical decimal text of x.
+func decEqCells(x *Term, cells []value) *Term {
+	n := len(cells)
+	if n == 0 || n > 18 {
+		if n == 0 {
+			return tFalse
+		}
+		theEx.unsupported("comparison of decimal text with symbolic text longer than 18 bytes")
+	}
+	isDigit := func(b *Term) *Term {
+		return mkAnd(mkCmp(OpUle, mkConst(8, '0'), b), mkCmp(OpUle, b, mkConst(8, '9')))
+	}
+	digitsVal := func(cs []value) (*Term, *Term) {
+		// returns (all digits, no leading zero unless single digit), value
+		valid := tTrue
+		val := mkConst(64, 0)
+		for _, c := range cs {
+			b := byteTerm(c)
+			valid = mkAnd(valid, isDigit(b))
+			val = mkBin(OpAdd, mkBin(OpMul, val, mkConst(64, 10)), mkZExt(mkBin(OpSub, b, mkConst(8, '0')), 64))
+		}
+		if len(cs) > 1 {
+			valid = mkAnd(valid, mkNot(mkEq(byteTerm(cs[0]), mkConst(8, '0'))))
+		}
+		return valid, val
+	}
+	// non-negative form
+	vPos, valPos := digitsVal(cells)
+	pos := mkAnd(vPos, mkEq(x, valPos))
+	if n == 1 {
+		return pos
+	}
+	// negative form: '-' followed by digits, not "-0"
+	vNeg, valNeg := digitsVal(cells[1:])
+	neg := mkAnd(mkEq(byteTerm(cells[0]), mkConst(8, '-')), vNeg,
+		mkNot(mkEq(valNeg, mkConst(64, 0))), mkEq(x, mkUn(OpNeg, valNeg)))
+	return mkOr(pos, neg)
 }
 
 func parseCanonicalInt(s string) (int64, bool) {
